@@ -343,6 +343,34 @@ Example c18_reports_arrive_unchanged_example :
     [Some (JDict (kw1 ++ reserved_fields true ck 0)%list); Some (JDict ([(codes "ok", JBool true)] ++ reserved_fields true ck 1)%list)].
 Proof. vm_compute. repeat split. Qed.
 
+(* Several processes writing to ONE std.out one after the other (a trial that is paused and
+   resumed; the counter belongs to one Reporter object and restarts at 0 in every process):
+   for every list of scripts, each run by a fresh Reporter, with tag-free other output over
+   the concatenation, retrieve of the concatenated streams yields the concatenation of the
+   payloads of all processes — every report of every process, also when consecutive reports
+   of different processes carry the same counter value; within a process the counters are
+   strictly increasing. *)
+Theorem c18_multi_process :
+  forall add_time m1 m2 (scripts : list (list cevent)),
+    forallb (forallb cevent_ok) scripts = true ->
+    let outs := map (process_out add_time m1 m2) scripts in
+    let css := map snd outs in
+    noise_ok (List.concat css) = true ->
+    retrieve_model (readlines (List.concat (map render css))) = List.concat (map payloads_of css) /\
+    Forall (fun o => StronglySorted lt (emitted_iters (fst o))) outs.
+Proof. exact multi_process. Qed.
+Print Assumptions c18_multi_process.
+
+Example c18_multi_process_example :
+  let ck := {| ck_timestamp := codes "1790000000.25"; ck_time := codes "0.5"; ck_cost := None |} in
+  let run1 := [CSay (codes "first run"); CSay [NL]; CCall ck [(codes "epoch", JNum (codes "1"))]] in
+  let run2 := [CSay (codes "resumed"); CSay [NL]; CCall ck [(codes "epoch", JNum (codes "2"))]; CCall ck [(codes "epoch", JNum (codes "3"))]] in
+  let outs := map (process_out true MSG_UNSER MSG_LARGE) [run1; run2] in
+  map (fun o => emitted_iters (fst o)) outs = [[0]; [0; 1]]%nat /\     (* same counter value twice in a row *)
+  noise_ok (List.concat (map snd outs)) = true /\
+  List.length (retrieve_model (readlines (List.concat (map render (map snd outs))))) = 3%nat.
+Proof. vm_compute. repeat split. Qed.
+
 (* non-vacuity: other output without newline on the same line as a report,
    braces in the other output, a payload containing the whole tag prefix and
    braces, a rejected report in between — hypotheses hold, result as stated *)
